@@ -231,7 +231,7 @@ def gen_sched(rng):
         maxrit = None
     # oracle stream: mostly real outcomes, sometimes adversarial
     n = rng.choice([0, 1, 2, 3, 5, 8, 12, 20, 30])
-    adv = rng.random() < 0.15
+    adv = rng.random() < 0.25
     stream = []
     style = rng.choice(['good', 'mixed', 'fail-late', 'bad'])
     for k in range(n):
@@ -239,7 +239,9 @@ def gen_sched(rng):
             stream.append((0, True))                # most runs get past the very first fit
             continue
         if adv:
-            stream.append((rng.choice([-2, -1, 0, 1, 2, 3, 4, 5]), rng.random() < 0.7))
+            # outcomes no real fitter produces (invalid with a code other than 3, codes 4/5/-2): the
+            # skeleton then pops / repairs isophotes other than the one just fitted
+            stream.append((rng.choice([-2, -1, -1, 0, 0, 0, 1, 2, 3, 4, 5]), rng.random() < 0.6))
             continue
         p = {'good': 0.03, 'mixed': 0.3, 'fail-late': 0.6 if k > n // 2 else 0.0, 'bad': 0.7}[style]
         if rng.random() < p:
@@ -399,6 +401,30 @@ PINNED_REAL = [
 ]
 
 
+MODEL_MEDIAN_TOL = 0.03      # observed on the repaired tree: median <= 0.016, 90th percentile <= 0.04 (see evidence)
+MODEL_P90_TOL = 0.10
+
+
+def model_residual(p, obs):
+    """|build_ellipse_model - image| / image on the pixels well inside the fitted region (elliptical
+    radius between 5 pixels and 0.8 x the largest fitted sma, at most 3 scale radii, model filled)."""
+    from photutils.isophote import build_ellipse_model
+    with warnings.catch_warnings():
+        warnings.simplefilter('ignore')
+        model = build_ellipse_model(obs['image'].shape, obs['isolist'])
+    img = obs['image']
+    y, x = np.mgrid[0:p['ny'], 0:p['nx']].astype(float)
+    dx, dy = x - p['x0'], y - p['y0']
+    xr = dx * math.cos(p['pa']) + dy * math.sin(p['pa'])
+    yr = -dx * math.sin(p['pa']) + dy * math.cos(p['pa'])
+    r = np.sqrt(xr ** 2 + (yr / (1 - p['eps'])) ** 2)
+    smas = [s for s, _, _ in obs['isos']]
+    inside = (r > 5) & (r < 0.8 * min(max(smas), 3 * p['scale'])) & (model != 0)
+    if inside.sum() == 0:
+        return None
+    return np.abs(model[inside] - img[inside]) / img[inside]
+
+
 def angdiff(a, b):
     """Difference of two position angles modulo pi."""
     d = (a - b) % math.pi
@@ -466,6 +492,27 @@ def fixed_honoured(p, obs):
             bad.append(('pa', float(iso.sma), float(iso.pa)))
         if p['fixes'][2] and iso.eps != geps:
             bad.append(('eps', float(iso.sma), float(iso.eps)))
+    return bad
+
+
+def fixed_geometry_oracle(p, obs):
+    """_fix_last_isophote: an isophote whose fit failed (returned with stop code 5) carries the geometry
+    of the previous isophote when going outwards (index -1) and of the FIRST fitted isophote (sma0,
+    index 0) when going inwards.  Mechanism-level check on real fits (the scripted oracle never changes
+    the geometry, so the schedule model does not see it).  Returns a list of messages."""
+    il = list(obs['isolist'])
+    a0 = p['sma0'] if p['sma0'] else p['gsma']
+    first = [i for i in il if i.sma == a0]
+    bad = []
+    for k, iso in enumerate(il):
+        if iso.stop_code != 5 or iso.sma == a0 or not first:
+            continue
+        ref = il[k - 1] if iso.sma > a0 else first[0]
+        g = (iso.x0, iso.y0, iso.eps, iso.pa)
+        gr = (ref.x0, ref.y0, ref.eps, ref.pa)
+        if g != gr:
+            bad.append(f'isophote at sma {iso.sma} (stop code 5) has geometry {g}, expected that of the isophote at '
+                       f'sma {ref.sma}: {gr}')
     return bad
 
 
@@ -673,6 +720,10 @@ def run(ctx):
         if sched_hyps(p, obs['stream']):
             for sig, msg in sched_oracle(p, obs):
                 ctx.violation('Ellipse.fit_image:' + sig, msg, describe_real(p))
+        fg = fixed_geometry_oracle(p, obs)
+        ctx.stat('real', 'stop-code-5-isophotes', sum(1 for _, c, _ in obs['isos'] if c == 5))
+        if fg:
+            ctx.violation('correspondence:_fix_last_isophote.geometry', fg[0], describe_real(p), found_input=False)
         bad = fixed_honoured(p, obs)
         if bad:
             ctx.violation('Ellipse.fit_image:fixed-parameter-changed',
@@ -681,7 +732,12 @@ def run(ctx):
         ctx.support('recovery_well_sampled', n)
         ctx.stat('real', 'well-sampled-isophotes', n)
         radii = worst.pop('radii')
-        if p['integr'] != 'nearest_neighbor':
+        if not obs['isos']:
+            # "No meaningful fit was possible" although the initial geometry is inside the basin of
+            # convergence: counted as 8 well-sampled radii that did not converge
+            ctx.stat('real', 'returned-empty')
+            radii = 8
+        if p['integr'] != 'nearest_neighbor' or not obs['isos']:
             conv[0] += n
             conv[1] += radii
         for k, v in worst.items():
@@ -710,7 +766,7 @@ def run(ctx):
                               {'mode': 'step', 'case': describe_real(p),
                                'step': {k: s_[k] for k in ('k', 'fix', 'g', 'coeffs', 'harm', 'gc', 'gn')}})
                 break
-        nonfin = [s_ for s_ in st if not all(math.isfinite(v) for v in s_['g'] + s_['gc'] + s_['gn'] + tuple(s_['coeffs']))]
+        nonfin = [s_ for s_ in st if not all(math.isfinite(v) for v in s_['g'] + s_['gc'] + s_['gn'] + tuple(s_['coeffs']) + (s_['harm'],))]
         ctx.stat('real', 'steps-with-non-finite-geometry(not compared)', len(nonfin))
         st = [s_ for s_ in st if s_ not in nonfin]
         pick = st if len(st) <= 30 else [st[i] for i in sorted(ctx.rng.sample(range(len(st)), 30))]
@@ -737,39 +793,29 @@ def run(ctx):
 
     _t(ctx, 'real')
     # ---- model image / misc support (few: slow) ----------------------------------------
-    from photutils.isophote import build_ellipse_model
     done = 0
     for kind, p, obs in meta:
         if kind != 'real' or obs['kind'] != 0 or len(obs['isos']) < 12 or p['integr'] != 'bilinear' or any(p['fixes']):
             continue
-        if done >= (2 if quick else 10):
+        if done >= (3 if quick else 12):
             break
         done += 1
-        with warnings.catch_warnings():
-            warnings.simplefilter('ignore')
-            try:
-                model = build_ellipse_model(obs['image'].shape, obs['isolist'])
-            except Exception as e:                       # spline failures are numerics
-                ctx.stat('model_image', 'raised:' + type(e).__name__)
-                continue
-        img = obs['image']
-        y, x = np.mgrid[0:p['ny'], 0:p['nx']].astype(float)
-        dx, dy = x - p['x0'], y - p['y0']
-        xr = dx * math.cos(p['pa']) + dy * math.sin(p['pa'])
-        yr = -dx * math.sin(p['pa']) + dy * math.cos(p['pa'])
-        r = np.sqrt(xr ** 2 + (yr / (1 - p['eps'])) ** 2)
-        smas = [s for s, _, _ in obs['isos']]
-        inside = (r > 5) & (r < 0.8 * min(max(smas), 3 * p['scale'])) & (model != 0)
-        if inside.sum() == 0:
+        try:
+            rel = model_residual(p, obs)
+        except Exception as e:                       # spline failures are numerics
+            ctx.stat('model_image', 'raised:' + type(e).__name__)
             continue
-        rel = np.abs(model[inside] - img[inside]) / img[inside]
-        ctx.support('model_image', int(inside.sum()))
+        if rel is None:
+            continue
+        med, p90 = float(np.median(rel)), float(np.percentile(rel, 90))
+        ctx.support('model_image', int(rel.size))
         d = ctx.cov['correspondence'].setdefault('model_image', {})
-        d['worst_median_rel_residual'] = max(d.get('worst_median_rel_residual', 0.0), round(float(np.median(rel)), 5))
-        if float(np.median(rel)) > 0.1:
-            ctx.violation('build_ellipse_model:residual', f'median relative residual {float(np.median(rel)):.3f} '
-                          'inside the fitted region', describe_real(p))
-
+        d['worst_median_rel_residual'] = max(d.get('worst_median_rel_residual', 0.0), round(med, 5))
+        d['worst_p90_rel_residual'] = max(d.get('worst_p90_rel_residual', 0.0), round(p90, 5))
+        if med > MODEL_MEDIAN_TOL or p90 > MODEL_P90_TOL:
+            ctx.violation('build_ellipse_model:residual', f'relative residual of the model image inside the fitted '
+                          f'region: median {med:.3f} (tol {MODEL_MEDIAN_TOL}), 90th percentile {p90:.3f} '
+                          f'(tol {MODEL_P90_TOL})', describe_real(p))
     _t(ctx, 'model image')
     # ---- polar twins ---------------------------------------------------------------------
     n_pol = 250 if quick else 2500
